@@ -12,6 +12,9 @@ Domain : (a) models of a fixed family of grammars that put STRING values in ever
          and literals containing the same characters, abstract/common/match rules, references,
          multiplicities) exported through metamodel_export with the DOT and the PlantUML renderer and
          through the registered ('textX','dot') and ('textX','PlantUML') generators.
+         (c) metamodels of a main grammar importing 1-2 grammar files (directly or as a chain
+         main -> base -> ext) whose rule names come from a pool of three, so that namespaces define
+         classes with the same short name; the expected class set is every class of every namespace.
 Oracle : an independent DOT parser (vt.ref.dotparse, written from the Graphviz grammar) must accept
          the text; every model object (the root and all contained objects) has exactly one node
          statement whose id is id(obj), with a label; record labels have balanced unescaped braces and
@@ -137,9 +140,58 @@ def mm_cases(draw):
     return {"kind": "metamodel", "g": g, "via": draw(st.sampled_from(["export", "generator"]))}
 
 
+RULE_POOL = ["Item", "Thing", "Node"]
+
+
+@st.composite
+def import_cases(draw):
+    """a main grammar importing 1-2 grammar files; rule names come from a small pool so that different namespaces
+    define classes with the same short name"""
+    files = []
+    for fname in ["main"] + draw(st.sampled_from([["base"], ["base", "ext"]])):
+        rules = []
+        for rn in draw(st.lists(st.sampled_from(RULE_POOL), min_size=1, max_size=3, unique=True)):
+            rules.append([rn, draw(st.sampled_from(["common", "common", "abstract", "match"]))])
+        files.append([fname, rules])
+    return {"kind": "metamodel_imports", "files": files, "chain": draw(st.booleans()),
+            "via": draw(st.sampled_from(["export", "generator"]))}
+
+
+def import_texts(case):
+    files = dict((f, r) for f, r in case["files"])
+    chain = case["chain"] and "ext" in files
+    texts = {}
+    for fname, rules in files.items():
+        body = []
+        for rn, kind in rules:
+            if kind == "common":
+                body.append(f"{rn}: '{fname}_{rn}' name=ID;")
+            elif kind == "abstract":
+                body.append(f"{rn}: {rn}A | {rn}B;\n{rn}A: '{fname}_{rn}_a' name=ID;\n{rn}B: '{fname}_{rn}_b' v=INT;")
+            else:
+                body.append(f"{rn}: /{fname}_{rn}\\w*/;")
+        texts[fname] = "\n".join(body) + "\n"
+    uses = [f"m{i}+={rn}*" for i, (rn, _) in enumerate(files["main"])]
+    direct = [f for f in files if f != "main" and not (chain and f == "ext")]
+    for f in direct:
+        uses += [f"{f}{i}+={f}.{rn}*" for i, (rn, _) in enumerate(files[f])]
+    head = "".join(f"import {f}\n" for f in direct)
+    if chain:
+        texts["base"] = "import ext\n" + texts["base"] + "BaseUse: 'baseuse' " + " ".join(
+            f"e{i}+=ext.{rn}*" for i, (rn, _) in enumerate(files["ext"])) + ";\n"
+        uses.append("bu+=base.BaseUse*")
+    texts["main"] = head + "Model: 'model' " + " ".join(uses) + ";\n" + texts["main"]
+    return texts
+
+
 @st.composite
 def cases(draw):
-    return draw(model_cases()) if draw(st.integers(0, 9)) < 6 else draw(mm_cases())
+    k = draw(st.integers(0, 9))
+    if k < 6:
+        return draw(model_cases())
+    if k < 8:
+        return draw(mm_cases())
+    return draw(import_cases())
 
 
 def strategy(tier):
@@ -427,14 +479,38 @@ def eval_metamodel(case, out):
     from textx.lang import ALL_TYPE_NAMES
     from textx.registration import generator_for_language_target
 
-    gtext = G.to_text(case["g"])
-    out.sample = {"kind": "metamodel", "via": case["via"], "grammar": gtext}
+    gdir = None
     try:
-        mm = metamodel_from_str(gtext)
+        if case["kind"] == "metamodel_imports":
+            from textx import metamodel_from_file
+
+            gdir = tempfile.mkdtemp(prefix="c29g-")
+            texts = import_texts(case)
+            for fname, text in texts.items():
+                with open(os.path.join(gdir, fname + ".tx"), "w", encoding="utf-8") as f:
+                    f.write(text)
+            out.sample = {"kind": "metamodel_imports", "via": case["via"], "grammars": texts}
+            mm = metamodel_from_file(os.path.join(gdir, "main.tx"))
+            out.cls("mm_imports")
+            short = [c.__name__ for ns in mm.namespaces.values() for c in ns.values() if c.__name__ not in ALL_TYPE_NAMES]
+            if len(short) != len(set(short)):
+                out.cls("mm_same_short_name_in_two_namespaces")
+        else:
+            gtext = G.to_text(case["g"])
+            out.sample = {"kind": "metamodel", "via": case["via"], "grammar": gtext}
+            mm = metamodel_from_str(gtext)
     except TextXError as e:
         out.inconclusive = "grammar_rejected:" + type(e).__name__
         return out
-    classes = [c for c in mm if c.__name__ not in ALL_TYPE_NAMES]
+    finally:
+        if gdir:
+            shutil.rmtree(gdir, ignore_errors=True)
+    # every class of every namespace of the metamodel (not the exporter's own iteration)
+    classes = []
+    for ns in mm.namespaces.values():
+        for c in ns.values():
+            if c.__name__ not in ALL_TYPE_NAMES and c not in classes:
+                classes.append(c)
     want = [c for c in classes if c._tx_type in (RULE_COMMON, RULE_ABSTRACT)]
     has_match = any(c._tx_type == RULE_MATCH for c in classes)
     out.nontrivial = has_match or any(c._tx_type == RULE_ABSTRACT for c in classes)
